@@ -181,6 +181,8 @@ Definition map_triangle (g : A -> A) (t : triangle) : triangle :=
 Definition write_ply_model (rnd : A -> A) (ts : list triangle) :=
   (ply_vertices (map (map_triangle rnd) ts), ply_faces (length ts)).
 Definition read_ply_model (file : list vertex * list (nat * nat * nat)) := ply_read (fst file) (snd file).
+(* a triangle whose coordinates the file format holds exactly *)
+Definition representable (rnd : A -> A) (t : triangle) : Prop := map_triangle rnd t = t.
 End Ply.
 
 (* ====================================================================================== *)
@@ -214,10 +216,10 @@ Definition quant_dy (rint : bool) (depth : Z) (cmin cmax px : Z * Z) : Z :=
 Definition quant_level (rint : bool) (depth n : Z) : Z :=
   quant_dy rint depth (0, 0) (levels depth, 0) (n, 0).
 
-Fixpoint all_below (n : nat) (f : Z -> bool) : bool :=
-  match n with O => true | S k => f (Z.of_nat k) && all_below k f end.
-Fixpoint all_between (lo : Z) (n : nat) (f : Z -> bool) : bool :=
-  match n with O => true | S k => f (lo + Z.of_nat k) && all_between lo k f end.
+(* exhaustive sweeps: f holds on [lo, lo + 2^k) *)
+Fixpoint all_pow2 (k : nat) (lo : Z) (f : Z -> bool) : bool :=
+  match k with O => f lo | S k' => all_pow2 k' lo f && all_pow2 k' (lo + 2 ^ Z.of_nat k') f end.
+Definition level_kept (rint : bool) (depth n : Z) : bool := quant_level rint depth n =? n.
 
 (* the same computation over the reals with the standard model of binary32 rounding (no overflow) *)
 Definition rnd32 (x : R) : R := round radix2 (FLT_exp (-149) 24) ZnearestE x.
